@@ -33,3 +33,88 @@ func (fx *fexec) aminoUnmarshal(key string, x *ssa.Call, args []Val, st *State, 
 	vc.assert(ge(e, intLit(0)))
 	return Val{Ty: rt, T: e}
 }
+
+// marshalRec remembers one amino.Marshal*(v) of this function: the value, its static type
+// and the encoding as it was at that moment (a snapshot, so later writes do not matter).
+type marshalRec struct {
+	val Val
+	arr Term // contents of the encoding
+	off Term
+	ln  Term
+}
+
+// aminoMarshal models amino.Marshal*/MustMarshal*(v): a fresh byte slice that is a function
+// of the value, and — the part that carries information — two encodings of the same type
+// that are equal byte for byte come from values whose integer, boolean, string and byte-slice
+// components (through in-repo structs) are equal: amino decodes what it encodes (C19/C20's
+// round trip, ASSUMED here). Nothing is concluded about foreign types such as time.Time,
+// whose in-memory representation is not what is encoded.
+func (fx *fexec) aminoMarshal(key string, x *ssa.Call, args []Val, st *State, must bool) Val {
+	vc := fx.vc
+	rt := vc.resolve(x.Type())
+	st0 := rt
+	if tup, ok := rt.(*types.Tuple); ok {
+		st0 = vc.resolve(tup.At(0).Type())
+	}
+	byteT := vc.under(st0).(*types.Slice).Elem() // the result's own element type (byte vs uint8 name one component each)
+	ln := vc.fresh("enclen", SInt)
+	vc.assert(ge(ln, intLit(0)))
+	vc.assert(le(ln, bigLit(pow2(40))))
+	bz := vc.allocSlice(st, byteT, ln, ln, x.Name()+"_bz")
+	comp, srt := vc.elemComp(byteT)
+	h := vc.heapGet(st, comp, srt)
+	enc := vc.fresh("encarr", arrayElemSort(srt))
+	vc.heapSet(st, comp, store(h, sArr(bz.T), enc))
+	vc.note("extern " + shortKey(key) + ": equal encodings of one type imply equal scalar/byte-slice components (amino round trip, assumed); the error result is arbitrary")
+	if v, ok := vc.boxed[args[0].T.S]; ok {
+		rec := marshalRec{val: v, arr: enc, off: sOff(bz.T), ln: ln}
+		sc := &SpecCtx{vc: vc, st: st, old: st}
+		for _, p := range vc.marshalled {
+			if typeKey(vc.resolve(p.val.Ty)) != typeKey(vc.resolve(v.Ty)) {
+				continue
+			}
+			vc.ctr["qv"]++
+			k := Term{"q_k!" + itoa(vc.ctr["qv"]), SInt}
+			same := and(eq(p.ln, rec.ln), Term{"(forall ((" + k.S + " Int)) " + implies(and(le(intLit(0), k), lt(k, rec.ln)),
+				eq(sel(p.arr, add(p.off, k)), sel(rec.arr, add(rec.off, k)))).S + ")", SBool})
+			vc.assert(implies(same, sc.deepEqEncoded(p.val, v, 0)))
+		}
+		vc.marshalled = append(vc.marshalled, rec)
+	}
+	if must {
+		return Val{Ty: rt, T: bz.T}
+	}
+	e := vc.fresh("marshal_err", SInt)
+	vc.assert(ge(e, intLit(0)))
+	return Val{Ty: rt, Tup: []Val{{Ty: bz.Ty, T: bz.T}, {Ty: rt.(*types.Tuple).At(1).Type(), T: e}}}
+}
+
+// deepEqEncoded: equality of the components of two values of one type that an encoding pins down.
+func (sc *SpecCtx) deepEqEncoded(a, b Val, depth int) Term {
+	vc := sc.vc
+	t := vc.resolve(a.Ty)
+	if depth > 4 {
+		return tTrue
+	}
+	switch u := t.Underlying().(type) {
+	case *types.Basic:
+		if u.Info()&(types.IsInteger|types.IsBoolean|types.IsString) != 0 {
+			return eq(a.T, b.T)
+		}
+	case *types.Slice:
+		if eb, ok := vc.under(u.Elem()).(*types.Basic); ok && eb.Kind() == types.Uint8 {
+			return sc.bytesEqual(a, b).T
+		}
+	case *types.Struct:
+		if nt, ok := t.(*types.Named); ok && (nt.Obj().Pkg() == nil || !inRepoPath(nt.Obj().Pkg().Path()+".x")) {
+			return tTrue // foreign struct (time.Time, ...): its fields are not what is encoded
+		}
+		var cs []Term
+		for i := 0; i < u.NumFields(); i++ {
+			ft := u.Field(i).Type()
+			cs = append(cs, sc.deepEqEncoded(Val{Ty: ft, T: vc.getField(a.T, t, i)}, Val{Ty: ft, T: vc.getField(b.T, t, i)}, depth+1))
+		}
+		return and(cs...)
+	}
+	return tTrue
+}
